@@ -1152,6 +1152,36 @@ def cases(ctx):
             for kind in range(3):
                 for rel in range(2):
                     yield "delegation", reform_case(base, kind, rel, form if ctx.tier == "quick" else rng.randrange(4))
+    # 8. CNAME / other-data exclusivity at one node: CNAME, RRSIG(CNAME), regular types and their RRSIGs, neutral
+    #    types (NSEC, KEY, NSEC3) and their RRSIGs stored over each other in every order, over two transactions
+    kinds_tc = [(CNAME, 0), (RRSIG, CNAME), (A, 0), (RRSIG, A), (TXT, 0), (NSEC, 0), (RRSIG, NSEC), (KEY, 0), (RRSIG, KEY), (MX, 0)]
+    for i in range(ctx.n(60, 600)):
+        origin = rng.choice(ORIGINS[:4])
+        kind, rel = i % 3, (i // 3) % 2
+        g = Gen(rng, origin)
+        relname = rng.choice([[b"www"], [b"a"], [b"b", b"a"], [b"mail"]])
+        seq = [kinds_tc[0], kinds_tc[1]] if i % 4 == 0 else []
+        seq = seq + rng.sample(kinds_tc, rng.choice([2, 3, 4]))
+        rng.shuffle(seq)
+        txns = [[], []]
+        for j, (ty, cov) in enumerate(seq):
+            ops = txns[0 if j < len(seq) // 2 else 1]
+            rds = g.rds(ty, cov, empty=0, badclass=0)
+            form = rng.randrange(3)
+            owner = g.spell(relname)
+            if form == 0:
+                ops.append([rng.choice([1, 2]), [owner, [2, rds]]])
+            elif form == 1:
+                ops.append([rng.choice([1, 2]), [owner, [4, rds[2]], [5, [ty, cov, rds[3][0][0], rds[3][0][1], 1]]]])
+            else:
+                ops.append([rng.choice([1, 2]), [[3, owner[1], rds]]])
+            ops.append([10, [0, g.spell(relname, rng.randrange(2))[1]]])
+            if rng.random() < 0.5:
+                t2, c2 = rng.choice(kinds_tc)
+                ops.append([6, g.spell(relname), t2, c2])
+        hist = [g.setup()] if rng.random() < 0.3 else [[0, 1, [[1, [[0, []], [2, [SOA, 0, 3600, [[1, 1]], 1]]]]], -1]]
+        hist += [[0, rng.randrange(2), txns[0] + [[11]], -1], [0, 1, txns[1], -1]]
+        yield "exclusive", mk_case(kind, rel, origin, hist)
     # 6. every rdata type of the universe: merged twice through each argument form (the second add meets an
     #    existing - possibly empty - rdataset), read back, deleted by type with boundary type values
     allt = [A, NS, CNAME, SOA, MX, TXT, SIG, KEY, NXT, DNAME, RRSIG, NSEC, NSEC3]
